@@ -50,12 +50,94 @@ CLAIMED = {
          "Trusted: TLC, system grep/diff/cmp as the oracle for line content, the driver. Shell quoting / eval / sed semantics are observed on "
          "the hostile classes, not modelled (stated in evidence); xzless/xzmore are not exercised.",
          "§4 C20"),
+ "C09": ("TLA+ models of the memory-limit protocols (MemLimit.tla: single-threaded init-point restart, threaded decoder threading/stop limits, "
+         "memconfig) and of xz's coder_set_compression_settings (MemAdjust.tla) checked by TLC; recorded allocator traces of real decoders "
+         "validated by TraceMemLimit; TLC-generated (limit x threads x preset x flags) plans replayed with the real xz",
+         "TLC checks: held memory <= max(limit, BASE) + allowance, usage reported at a stop = amount needed, raise-to-reported resumes, "
+         "set is sound, threaded usage <= threading limit and always <= stop limit; 5 broken protocol variants violate the contract. "
+         "Bound to the code by a counting allocator (every alloc/free logged) on files with dictionary sizes 4 KiB..1.5 GiB and limits M-1/M/M+1, "
+         "raise-and-resume, estimate >= peak comparisons, and 161 (quick) / 2600 xz runs whose settings/messages/exit status must equal the model's.",
+         "Trusted: TLC, the counting allocator (mmap-backed for large blocks), liblzma's estimate functions as inputs of MemAdjust. "
+         "xz's real peak RSS is not measured; lzma_index_memusage is documented approximate and only recorded.",
+         "§4 C09"),
+ "C10": ("TLA+ ownership/ledger model of lzma_stream / lzma_next_coder (Lifecycle.tla: strm_init, next_coder_init, next_strm_init, next_end, "
+         "lzma_end, caller-owned objects) checked by TLC; TLC-generated API scenarios replayed with every single allocation failing; "
+         "recorded alloc/free/return traces validated by TraceLifecycle",
+         "TLC checks 11 invariants (no bad free, failure reported by the failing call (or later for threaded coders), failed init leaves "
+         "nothing allocated, nothing live after End, handle reusable, caller objects unchanged after failure, no coder driven by another "
+         "kind's functions) over all op histories <= 3 (quick) / 4 calls with interleaved micro-ops; 6 broken mechanisms violate them. "
+         "~375 / 8662 TLC-generated scenarios over 19 constructors + 26 object/one-shot functions are run fault-free and with EVERY "
+         "allocation ordinal failing (4.4k / 162k executions under ASan, in subprocesses), traces validated.",
+         "Trusted: TLC, ASan, the counting allocator driver. Allocation-failure paths of code not reached by the scenarios are not covered.",
+         "§4 C10"),
+ "C12": ("TLA+ model of the encoder pipeline's flush/update handling (XzStreamEnc.tla: stream_encoder, block_encoder, lz_encoder fill_window, "
+         "lzma2_encoder sequences, simple_coder, delta, filters_update; LzmaCode instanced) checked by TLC against a decoder-monitor contract; "
+         "TLC-generated histories replayed with real data, decoding the output at every completed flush; recorded runs validated by TraceXzStreamEnc",
+         "TLC checks over all application histories <= 3-5 operations (Run/SyncFlush/FullFlush/FullBarrier/Finish/Update x grants) that a "
+         "completed flush makes decodable = accepted input, full flush/barrier close a non-empty Block and never create an empty one, the "
+         "only refusal is OPTIONS_ERROR for sync flush on BCJ/LZMA1 chains, update rules; 9 deliberately wrong variants violate it. "
+         "664 / 8000 generated histories x encoders x chains are executed; at every flush the output so far is decoded by liblzma and by "
+         "the independent glue decoder; return codes, accepted bytes and final Block list must equal the model's.",
+         "Trusted: TLC, harness/glue, the ctypes driver. Data is abstracted to 'at least one byte per pipeline stage'; one mutant "
+         "(flush ignoring read-ahead exactly at a chunk size limit) is known to be missed.",
+         "§4 C12"),
+ "C14": ("Definitional CRC32 / CRC64 / SHA-256 written in TLA+ (Check.tla, 16-bit limbs) with the init/update/finish machine, sanity-checked "
+         "by TLC; TLC computes expected values for generated byte strings which are replayed against every implementation variant",
+         "TLC checks the split law, table = bit-serial definition and published vectors on the TLA+ definitions, then emits 6449 / 28204 "
+         "(bytes, init, pieces, value) cases (every length 0..320/520, edge lengths x patterns, ~4 KiB) replayed at all 64 alignments against "
+         "lzma_crc32/64 as dispatched, the generic slice-by-N functions, the CLMUL functions, the small variants, lzma_check_* and the Block "
+         "Check field, in asan and no-CLMUL builds (4M / 15M calls).",
+         "Trusted: TLC's evaluation of the definitions (zlib/hashlib only as a second opinion on them). Contents are sampled by class, not "
+         "exhausted; ARM64/LoongArch/big-endian paths cannot be built here.",
+         "§4 C14"),
+ "C15": ("Reference BCJ (8 architectures) and delta transforms and the simple_code() buffering protocol written in TLA+ (Bcj.tla, Delta.tla, "
+         "SimpleCoder.tla) model-checked by TLC (exact inverse, chunked = one-shot, finish flushes); TLC-computed expected bytes replayed "
+         "against the real filters under many slicings",
+         "TLC checks SimpleCoder composed with each transform under every call sequence (PrefixOfOneShot, EndIffComplete, HeldBackIsBounded, "
+         "FinishFlushes, ExactInverse) and emits 1234 / 2854 (arch, offset, bytes, expected) jobs from opcode-pattern classes, replayed "
+         "through the internal single-filter coders (whole, bytewise, every two-piece split, random: 93k runs quick), the public one-shot "
+         "functions and [filter, LZMA2] chains; files written by other versions and the system's released liblzma agree.",
+         "Trusted: TLC. There is no format document for the BCJ transforms independent of the source, so Bcj.tla restates xz 5.8.1 as the "
+         "stability oracle (cross-checked with tests/files and liblzma 5.8.2).",
+         "§4 C15"),
+ "C16": ("TLA+ transcriptions of alone_decoder.c, lzip_decoder.c, auto_decoder.c, Stream Padding handling and the LZMA1 end rules "
+         "(Alone/Lzip/Auto/XzPadding/Lzma1End.tla) checked by TLC against a declarative format contract; TLC-generated files serialised by "
+         "the independent glue and replayed into the decoders and the tools under many slicings",
+         "TLC checks MeetsContract / NeverUnspecified / StopsAtFirstStream (acceptance <=> declarative validity, Auto = Specific, exact stop "
+         "position) over header-field families and every slicing in the core family; three variants reproducing the released 5.8.1 defects "
+         "violate it. 12.6k / 23k plans (all props bytes, dictionary sizes, size classes x end marker, every .lz ds byte/version/footer "
+         "fault, trailing data kinds, paddings 0..9, flag subsets) are replayed: 133k / 1.75M decoder runs + 1.4k / 4.6k CLI runs.",
+         "Trusted: TLC, harness/glue. LZMA payloads and .xz bodies are abstract regions (total_in after an error inside a payload is not "
+         "compared).",
+         "§4 C16"),
+ "C18": ("TLA+ models of xz's sparse-file / O_APPEND output logic (Sparse.tla) and of the tools' verdict-to-output mapping (CliDecode.tla) "
+         "checked by TLC; strace-recorded write/lseek/fcntl sequences validated by TraceSparse; tool runs compared with an in-process "
+         "library decode selected through the model",
+         "TLC checks content = old ++ data, exact size, flags restored for all buffer sequences <= 4-5 x sink kinds x append/nonblock/"
+         "--no-sparse. 280 / 2400 traced decompressions of model-shaped plaintexts (zero runs at every offset class of the 8 KiB buffer) "
+         "into new file / pipe / > / >> / offsets, -T1/-T4, must be accepted and byte-identical to the library decode; 1050 / 4080 runs of "
+         "xz -dc/-d/-t, xzdec, lzmadec on valid/corrupt/truncated/concatenated inputs must match the CliDecode row; CLI round trips.",
+         "Trusted: TLC, strace, the single-threaded library decoder as oracle. --format=raw and --files0 are not in the decode table.",
+         "§4 C18"),
+ "C19": ("TLA+ transcriptions of suffix.c (Suffix.tla), of the open/refuse/copy-attributes/close sequence (Attrs.tla, one action per "
+         "syscall) and of the exit status fold (ExitStatus.tla) checked by TLC; TLC-generated names and file scenarios replayed with the "
+         "real xz under strace",
+         "TLC checks round trip / skip rules / no '/' / non-empty base name for all names <= 4-6 over an 11-character alphabet x custom "
+         "suffixes (documented exception as a named predicate), and 14 invariants of Attrs over the whole mode lattice 0..07777 x fchown "
+         "outcomes (no overwrite, refusals, mode subset without 07000, owner/group/times, --keep). ~7k / 98k concretised names (spaces, "
+         "newline, non-UTF-8, leading '-'), 335 / 1939 file scenarios (syscall sequence, lstat before/after) and 234 / 2178 status folds "
+         "must equal TLC's predictions.",
+         "Trusted: TLC, strace (EPERM injected for fchown/fchmod; some runs as 'nobody'). -S suffixes longer than the bound are handled "
+         "by a named predicate, not enumerated.",
+         "§4 C19"),
 }
 NA_REASON = "check not built yet in this round (planned: see DESIGN.md §4); no claim is made"
+READY_FILE = os.path.join(V, "lib", "ready.txt")   # ids whose checks have been integrated (green + mutants confirmed)
 def main():
+    ready = set(open(READY_FILE).read().split()) if os.path.exists(READY_FILE) else set(CLAIMED)
     checks = []
     for pid in ALL:
-        if pid not in CLAIMED:
+        if pid not in CLAIMED or pid not in ready:
             continue
         tech, text, note, ref = CLAIMED[pid]
         checks.append(dict(property_id=pid, quick_cmd="./check %s --tier quick" % pid,
@@ -75,12 +157,12 @@ def main():
                         enable="lib/build.py compiles /repo's working tree directly with -DTUKAANI_PROJECT_XZ_VERIF (no -DNDEBUG)",
                         baseline_off_cmd="cmake -G Ninja -S /repo -B /repo/_build && cmake --build /repo/_build && ctest --test-dir /repo/_build -j8 --timeout 900",
                         source_commits=hooks_commits, add_only=True),
-             engines=[dict(name="tlc+conformance", path="check", serves_properties=sorted(CLAIMED),
+             engines=[dict(name="tlc+conformance", path="check", serves_properties=sorted(set(CLAIMED) & ready),
                            kind_free_text="TLA+ specifications (spec/) model-checked with TLC; plans generated by TLC replayed into "
                            "liblzma/xz built from the working tree; recorded traces validated against Trace*.tla")],
              checks=checks,
              notes="See DESIGN.md. Exit codes: 0 held, 1 VIOLATION, 3 machinery/build failure (not a verdict).",
-             not_applicable=[dict(property_id=p, reason=NA_REASON) for p in ALL if p not in CLAIMED])
+             not_applicable=[dict(property_id=p, reason=NA_REASON) for p in ALL if p not in CLAIMED or p not in ready])
     json.dump(m, open(os.path.join(V, "MANIFEST.json"), "w"), indent=1)
 if __name__ == "__main__":
     main()
